@@ -15,8 +15,8 @@ from harness.props.c09 import H, U, rand_rot
 
 ID = "C02"
 IMPORTS = "From Evo Require Import Num Linalg Lie Metrics.\n"
-COQ_TARGETS = ["theories/MetricsProofs.vo", "theories/RpeSelect.vo", "generated/StepsC02.vo", "theories/MetricsTie.vo", "generated/LieGen.vo", "generated/MetricsGen.vo"]
-TRUSTED = ["model Evo.Metrics (rpe) written by hand from RPE.process_data; ties: (T) harness/pyast_metrics.py re-translates RPE.rpe_base and the per-relation reduction of RPE.process_data for the SE(3)-based relations from the current source on every run and Evo.MetricsTie proves them equal to the model's rpe_pair (the point-distance relations are array code and stay tied by (H) only); (H) differential run in binary64, with an independent numpy evaluation of the definition deciding whether a disagreement is a violation",
+COQ_TARGETS = ["theories/MetricsProofs.vo", "theories/RpeSelect.vo", "generated/StepsC02.vo", "theories/MetricsTieRpe.vo", "generated/LieGen.vo", "generated/MetricsGen.vo"]
+TRUSTED = ["model Evo.Metrics (rpe) written by hand from RPE.process_data; ties: (T) harness/pyast_metrics.py re-translates RPE.rpe_base and the per-relation reduction of RPE.process_data for the SE(3)-based relations from the current source on every run and Evo.MetricsTieRpe proves them equal to the model's rpe_pair (the point-distance relations are array code and stay tied by (H) only); (H) differential run in binary64, with an independent numpy evaluation of the definition deciding whether a disagreement is a violation",
            "pair selection (id_pairs_from_delta) enters the model as a list computed by evo's own selector on the trajectory "
            "the statement names (estimate, or reference with pairs_from_reference); the selector itself is property C10",
            "scipy angle extraction as oracle (cos/sin comparison); processing components tied by C04/C05/C11/C14; "
@@ -34,7 +34,7 @@ def regenerate(ctx):
     except (steps.StepError, OSError, SyntaxError) as e:
         defs = [("main_rpe_rpe", ["<extraction failed: %s>" % e]), ("main_rpe_run", [])]
     steps.write_generated("StepsC02", defs)
-    return pyast_metrics.regenerate_ties(ctx, common.REPO, common.COQ)
+    return pyast_metrics.regenerate_ties(ctx, common.REPO, common.COQ, only=pyast_metrics.METRIC_HELPERS, metrics="rpe")
 
 
 def model_exprs(rel, pairs, ref, est):
